@@ -68,6 +68,7 @@ static Json genC05(const std::string &prop, uint64_t seed, const std::string &ti
     if (r.chance(0.3)) { double b = r.pick(std::vector<double>{4, 8}); g.params[P_buffer] = b; g.gap = 2 * b + 5; g.endMargin = b + 1; }
     tunables(r, g);
     g.maxConns = 4; g.maxShapes = tier == "thorough" ? 10 : 8;
+    if (r.chance(0.4)) g.edgeLines = 0.4;      // end points on the lines of shape sides
     ss.push(genRouterSession(r, g));
     addNoise(r, ss, tier);
     p.set("sessions", ss);
